@@ -40,3 +40,5 @@ reg('C08', 'propchecks.c08', 'proof', T1, [ASCII, DEPTH, CORR])
 C15M = 'Bashlex.Props.C15'
 reg('C15', 'propchecks.c15', 'proof', [('Bashlex.Props.C15', C15M), ('Bashlex.Props.enters_visit', C15M), ('Bashlex.Props.reached_noprune', C15M),
      ('Bashlex.Props.visit_balanced', C15M), ('Bashlex.Props.preorder_mapPos', C15M), ('Bashlex.Props.kinds_covered', C15M)], [CORR])
+
+reg('C06', 'propchecks.c06', 'proof', T1[:1], [ASCII, DEPTH, CORR, 'quote removal: per-input evaluation against the Lean definition; no all-inputs theorem for the expander yet'])
